@@ -469,7 +469,8 @@ var fmtMinimalS = []string{
 	`directive @d on SCHEMA schema @d { query: Query } type Query { f: Int }`, // directives, default roots
 	`directive @d on SCHEMA type Query { f: Int } extend schema @d`,
 	`type Query { f: Int } extend type Query { g: Int }`,
-	// a query root that is not an object type (the recorded C07 finding) gets __schema/__type, which the formatter hides but still brackets
+	// a query root that is not an object type: REJECTED by the loader since the repair "a root operation type must be
+	// an object type" (before it the root got __schema/__type, which the formatter hides but still brackets)
 	`scalar Query`,
 	`enum Query { A }`,
 	`type A { x: Int } union Query = A`,
